@@ -10,12 +10,16 @@ package document
 // Save returns nil only if no I/O call failed, every resource it opened (the file, the zip writer) was
 // closed successfully, and the archive holds exactly the parts of the in-memory package at that moment.
 //@ func (*Document).Save
-//@ props C05
+//@ props C05, C04, C01
 //@ requires docParts(d) && !ioFailed()
 //@ ensures result == nil ==> !ioFailed()
 //@ ensures result == nil ==> openCount() == old(openCount())
 //@ ensures result == nil ==> forall k string :: zipHas(k) <==> has(d.parts, k)
 //@ ensures result == nil ==> forall k string :: has(d.parts, k) ==> zipData(k) == d.parts[k]
+//@ ensures result == nil ==> zipHas("[Content_Types].xml") && zipHas("_rels/.rels") && zipHas("word/document.xml") && zipHas("word/_rels/document.xml.rels") && zipHas("word/styles.xml")
+//@ ensures result == nil ==> forall k string :: !genPart(k) ==> (zipHas(k) <==> old(has(d.parts, k))) && (old(has(d.parts, k)) ==> zipData(k) == old(d.parts[k]))
+//@ ensures result == nil && old(has(d.parts, "word/styles.xml") && len(d.parts["word/styles.xml"]) > 0) ==> zipData("word/styles.xml") == old(d.parts["word/styles.xml"])
+//@ ensures unchangedExcept("map:string:[]byte")
 //@ loop 1
 //@   invariant !ioFailed() && openCount() == old(openCount()) + 2 && file != zipWriter && isOpen(file) && isOpen(zipWriter)
 //@   invariant forall k string :: zipHas(k) <==> seen(k)
@@ -24,13 +28,64 @@ package document
 // ToBytes: the same archive content as Save (both follow the same five serialisation steps and then
 // write d.parts), all writes and the final Close checked.
 //@ func (*Document).ToBytes
-//@ props C05
+//@ props C05, C04, C01
 //@ requires docParts(d) && !ioFailed()
 //@ ensures err == nil ==> !ioFailed()
 //@ ensures err == nil ==> openCount() == old(openCount())
 //@ ensures err == nil ==> forall k string :: zipHas(k) <==> has(d.parts, k)
 //@ ensures err == nil ==> forall k string :: has(d.parts, k) ==> zipData(k) == d.parts[k]
+//@ ensures err == nil ==> zipHas("[Content_Types].xml") && zipHas("_rels/.rels") && zipHas("word/document.xml") && zipHas("word/_rels/document.xml.rels") && zipHas("word/styles.xml")
+//@ ensures err == nil ==> forall k string :: !genPart(k) ==> (zipHas(k) <==> old(has(d.parts, k))) && (old(has(d.parts, k)) ==> zipData(k) == old(d.parts[k]))
+//@ ensures err == nil && old(has(d.parts, "word/styles.xml") && len(d.parts["word/styles.xml"]) > 0) ==> zipData("word/styles.xml") == old(d.parts["word/styles.xml"])
+//@ ensures unchangedExcept("map:string:[]byte")
 //@ loop 1
 //@   invariant !ioFailed() && openCount() == old(openCount()) + 1 && isOpen(zipWriter)
 //@   invariant forall k string :: zipHas(k) <==> seen(k)
 //@   invariant forall k string :: seen(k) ==> has(d.parts, k) && zipData(k) == d.parts[k]
+
+// ---------------------------------------------------------------------------------------------------
+// The serialisation steps write only the part they regenerate (C04: everything else is passed through
+// untouched; C01: the mandatory parts exist in every saved package).
+//@ spec genPart(k string) bool = k == "word/document.xml" || k == "word/styles.xml" || k == "[Content_Types].xml" || k == "_rels/.rels" || k == "word/_rels/document.xml.rels"
+
+//@ func (*Document).serializeDocument
+//@ props C05, C04, C01
+//@ requires d != nil && d.parts != nil
+//@ ensures err == nil ==> has(d.parts, "word/document.xml")
+//@ ensures err != nil ==> unchangedHeap()
+//@ ensures forall k string :: k != "word/document.xml" ==> (has(d.parts, k) <==> old(has(d.parts, k))) && d.parts[k] == old(d.parts[k])
+//@ ensures forall m map[string][]byte, k string :: m != d.parts ==> (has(m, k) <==> old(has(m, k))) && m[k] == old(m[k])
+//@ ensures err == nil ==> freshArr(d.parts["word/document.xml"])
+//@ ensures unchangedExcept("map:string:[]byte")
+
+//@ func (*Document).serializeStyles
+//@ props C05, C04, C01
+//@ requires d != nil && d.parts != nil && d.styleManager != nil
+//@ ensures err == nil ==> has(d.parts, "word/styles.xml")
+//@ ensures err != nil ==> unchangedHeap()
+//@ ensures old(has(d.parts, "word/styles.xml") && len(d.parts["word/styles.xml"]) > 0) ==> err == nil && unchangedHeap()
+//@ ensures forall k string :: k != "word/styles.xml" ==> (has(d.parts, k) <==> old(has(d.parts, k))) && d.parts[k] == old(d.parts[k])
+//@ ensures forall m map[string][]byte, k string :: m != d.parts ==> (has(m, k) <==> old(has(m, k))) && m[k] == old(m[k])
+//@ ensures err == nil && !old(has(d.parts, "word/styles.xml") && len(d.parts["word/styles.xml"]) > 0) ==> freshArr(d.parts["word/styles.xml"])
+//@ ensures unchangedExcept("map:string:[]byte")
+
+//@ func (*Document).serializeContentTypes
+//@ props C05, C04, C01
+//@ requires d != nil && d.parts != nil
+//@ ensures has(d.parts, "[Content_Types].xml")
+//@ ensures forall k string :: k != "[Content_Types].xml" ==> (has(d.parts, k) <==> old(has(d.parts, k))) && d.parts[k] == old(d.parts[k])
+//@ ensures forall m map[string][]byte, k string :: m != d.parts ==> (has(m, k) <==> old(has(m, k))) && m[k] == old(m[k])
+//@ ensures freshArr(d.parts["[Content_Types].xml"])
+//@ ensures unchangedExcept("map:string:[]byte")
+
+//@ func (*Document).serializeRelationships
+//@ props C05, C04, C01
+//@ requires d != nil && d.parts != nil
+//@ ensures has(d.parts, "_rels/.rels")
+//@ ensures forall k string :: k != "_rels/.rels" ==> (has(d.parts, k) <==> old(has(d.parts, k))) && d.parts[k] == old(d.parts[k])
+//@ ensures forall m map[string][]byte, k string :: m != d.parts ==> (has(m, k) <==> old(has(m, k))) && m[k] == old(m[k])
+//@ ensures freshArr(d.parts["_rels/.rels"])
+//@ ensures unchangedExcept("map:string:[]byte")
+
+// serializeDocumentRelationships: under contract in zz_contracts_verif_image.go (same frame clause, plus the loop that
+// picks an unused id for the styles relationship).
